@@ -689,7 +689,7 @@ def cache_trace(run, scratch, name, focus, n, files, corrupt, pred, workers=10, 
     events = harness_trace(scratch, "cache", name, ["--seed", run.seed, "--n", n, "--focus", focus,
                                                      "--files", ",".join(files)] + (extra or []))
     validate_pure_trace(run, scratch, name, "Trace_Cache", events, workers=workers, timeout=3000, corrupt=corrupt,
-                        canary_pred=pred, signature=lambda ev: {"event": ev.get("t"), "what": ev.get("what")})
+                        xmx="28g" if run.tier == "thorough" else "6g", canary_pred=pred, signature=lambda ev: {"event": ev.get("t"), "what": ev.get("what")})
     return events
 
 
